@@ -1,14 +1,41 @@
 package trzsz
 
-import "io"
+// C04 — escape coding is reversible and keeps protected bytes off the wire.
 
-func verifNondetByte() byte
-func verifNondetInt() int
-func verifNondetBool() bool
-func verifAssume(bool)
-func verifAssert(bool, string)
-func verifReach(string)
-func verifExpectBlock(int)
+import (
+	"encoding/json"
+	"fmt"
+	"io"
+)
+
+// The protected sets are fixed here from the property text, not taken from the code.
+var zzProtectedBasic = []byte{0x7e}
+var zzProtectedAll = []byte{0x7e, 0x02, 0x0d, 0x10, 0x11, 0x13, 0x18, 0x1b, 0x1d, 0x8d, 0x90, 0x91, 0x93, 0x9d}
+
+// zzP_escapeTables is a native probe: it runs the real server-side table construction and the real client-side
+// parsing (getEscapeChars -> JSON -> escapeTable.UnmarshalJSON) on the current tree and reports the resulting pairs.
+func zzP_escapeTables() {
+	for k, all := range []bool{false, true} {
+		js, err := json.Marshal(getEscapeChars(all))
+		if err != nil {
+			panic(err)
+		}
+		var t escapeTable
+		if err := json.Unmarshal(js, &t); err != nil {
+			panic(err)
+		}
+		n := 0
+		for b := 0; b < 256; b++ {
+			if c := t.escapeCodes[b]; c != nil {
+				verifProbe(fmt.Sprintf("esc%d.%d.b", k, n), b)
+				verifProbe(fmt.Sprintf("esc%d.%d.c", k, n), int(*c))
+				n++
+			}
+		}
+		verifProbe(fmt.Sprintf("esc%d.n", k), n)
+		verifProbe(fmt.Sprintf("esc%d.total", k), t.totalCount)
+	}
+}
 
 func zzMkTable(pairs [][2]byte) *escapeTable {
 	t := &escapeTable{totalCount: len(pairs), escapeCodes: make([]*byte, 256), unescapeCodes: make([]*byte, 256)}
@@ -23,48 +50,101 @@ func zzMkTable(pairs [][2]byte) *escapeTable {
 	return t
 }
 
-func zzBuiltin() [][2]byte { return [][2]byte{{0xee, 0xee}, {0x7e, 0x31}} }
-func zzBuiltinAll() [][2]byte { return [][2]byte{{0xee, 0xee}, {0x7e, 0x31}, {0x02, 'A'}, {0x0d, 'B'}, {0x10, 'C'}, {0x11, 'D'}, {0x13, 'E'}, {0x18, 'F'}, {0x1b, 'G'}, {0x1d, 'H'}, {0x8d, 'I'}, {0x90, 'J'}, {0x91, 'K'}, {0x93, 'L'}, {0x9d, 'M'}} }
+// zzBuiltinTable rebuilds the table the probe read from the real build (k = 0 basic, 1 escape-all).
+func zzBuiltinPairs(k int) [][2]byte {
+	n := verifBound(fmt.Sprintf("esc%d.n", k))
+	pairs := make([][2]byte, n)
+	for i := 0; i < n; i++ {
+		pairs[i][0] = byte(verifBound(fmt.Sprintf("esc%d.%d.b", k, i)))
+		pairs[i][1] = byte(verifBound(fmt.Sprintf("esc%d.%d.c", k, i)))
+	}
+	return pairs
+}
 
-const zzN = 4
+func zzBuiltinTable(k int) *escapeTable {
+	t := zzMkTable(zzBuiltinPairs(k))
+	t.totalCount = verifBound(fmt.Sprintf("esc%d.total", k))
+	return t
+}
 
-func zzRoundtrip(t *escapeTable, protected []byte) {
-	data := make([]byte, zzN)
+func zzSymData(n int) []byte {
+	data := make([]byte, n)
 	for i := range data {
 		data[i] = verifNondetByte()
 	}
-	esc := escapeData(data, t)
-	for _, c := range esc {
+	return data
+}
+
+func zzNoneOf(buf []byte, protected []byte, label string) {
+	for _, c := range buf {
 		for _, p := range protected {
-			verifAssert(c != p, "protected byte on wire")
+			verifAssert(c != p, label)
 		}
 	}
+}
+
+func zzRoundtrip(t *escapeTable, protected []byte) {
+	n := verifBound("N")
+	data := zzSymData(n)
+	esc := escapeData(data, t)
+	zzNoneOf(esc, protected, "protected byte on the wire")
 	out, rem, err := unescapeData(esc, t, nil)
 	verifAssert(err == nil, "unescape error")
-	verifAssert(len(rem) == 0, "remaining")
-	verifAssert(len(out) == zzN, "length")
-	for i := range data {
-		verifAssert(out[i] == data[i], "content")
-	}
+	verifAssert(len(rem) == 0, "bytes remaining after unescape")
+	zzSameBytes04(out, data, "roundtrip")
 	verifReach("roundtrip")
 }
 
-func zzH_C04_builtin() {
-	zzRoundtrip(zzMkTable(zzBuiltin()), []byte{0x7e})
+func zzSameBytes04(got, want []byte, label string) {
+	verifAssert(len(got) == len(want), label+": length")
+	for i := range want {
+		verifAssert(got[i] == want[i], label+": content")
+	}
 }
 
-func zzH_C04_builtinAll() {
-	zzRoundtrip(zzMkTable(zzBuiltinAll()), []byte{0x7e, 0x02, 0x0d, 0x10, 0x11, 0x13, 0x18, 0x1b, 0x1d, 0x8d, 0x90, 0x91, 0x93, 0x9d})
+func zzH_C04_builtin()    { zzRoundtrip(zzBuiltinTable(0), zzProtectedBasic) }
+func zzH_C04_builtinAll() { zzRoundtrip(zzBuiltinTable(1), zzProtectedAll) }
+
+// zzSymTable: an arbitrary well-formed announced table = the leader entry plus K arbitrary entries, injective in
+// both directions, no entry for the leader byte other than the leader entry, codes distinct from the escaped bytes.
+func zzSymTable() (*escapeTable, []byte) {
+	p, prot := zzSymPairs()
+	return zzMkTable(p), prot
 }
 
-// arbitrary well-formed table: leader escaped, 2 more symbolic entries, injective, codes not protected
+func zzB(c bool) int {
+	if c {
+		return 1
+	}
+	return 0
+}
+
+func zzSymPairs() ([][2]byte, []byte) {
+	k := verifBound("K")
+	pairs := [][2]byte{{0xee, 0xee}}
+	var prot []byte
+	for i := 0; i < k; i++ {
+		b, c := verifNondetByte(), verifNondetByte()
+		verifAssume(b != 0xee)
+		verifAssume(c != 0xee)
+		for _, p := range pairs[1:] {
+			verifAssume(b != p[0])
+			verifAssume(c != p[1])
+		}
+		pairs = append(pairs, [2]byte{b, c})
+		prot = append(prot, b)
+	}
+	for _, p := range pairs[1:] {
+		for _, q := range pairs[1:] {
+			verifAssume(p[1] != q[0]) // a code is not itself a protected byte
+		}
+	}
+	return pairs, prot
+}
+
 func zzH_C04_symtable() {
-	b1, c1, b2, c2 := verifNondetByte(), verifNondetByte(), verifNondetByte(), verifNondetByte()
-	verifAssume(b1 != 0xee && b2 != 0xee && b1 != b2)
-	verifAssume(c1 != 0xee && c2 != 0xee && c1 != c2)
-	verifAssume(c1 != b1 && c1 != b2 && c2 != b1 && c2 != b2)
-	t := zzMkTable([][2]byte{{0xee, 0xee}, {b1, c1}, {b2, c2}})
-	zzRoundtrip(t, []byte{b1, b2})
+	t, prot := zzSymTable()
+	zzRoundtrip(t, prot)
 }
 
 type zzChunkReader struct {
@@ -76,40 +156,136 @@ func (r *zzChunkReader) Read(p []byte) (int, error) {
 	if r.pos >= len(r.data) {
 		return 0, io.EOF
 	}
-	n := verifNondetInt()
-	verifAssume(n >= 1 && n <= len(r.data)-r.pos && n <= len(p))
+	hi := len(r.data) - r.pos
+	if len(p) < hi {
+		hi = len(p)
+	}
+	n := verifNondetRange(1, hi)
 	copy(p, r.data[r.pos:r.pos+n])
 	r.pos += n
 	return n, nil
 }
 
-const zzM = 3
-
+// streaming reader: every split of the escaped stream (incl. between leader and code) x every sequence of output sizes
 func zzH_C04_stream() {
-	t := zzMkTable(zzBuiltin())
-	data := make([]byte, zzM)
-	for i := range data {
-		data[i] = verifNondetByte()
-	}
+	t := zzBuiltinTable(verifBound("TABLE"))
+	m := verifBound("M")
+	data := zzSymData(m)
 	esc := escapeData(data, t)
 	rd := newEscapeReader(t, &zzChunkReader{data: esc})
 	var out []byte
-	for k := 0; k < 2*zzM+2; k++ {
-		sz := verifNondetInt()
-		verifAssume(sz >= 1 && sz <= 2)
+	eof := false
+	for k := 0; k < 2*m+2; k++ {
+		sz := verifNondetRange(1, verifBound("OUT"))
 		p := make([]byte, sz)
 		n, err := rd.Read(p)
 		if err == io.EOF {
-			verifAssert(n == 0, "n with EOF")
+			verifAssert(n == 0, "n > 0 together with EOF")
+			eof = true
 			break
 		}
 		verifAssert(err == nil, "read error")
-		verifAssert(n >= 1 && n <= sz, "n range")
+		verifAssert(n >= 1, "n < 1 without error")
+		verifAssert(n <= sz, "n > len(p)")
 		out = append(out, p[:n]...)
 	}
-	verifAssert(len(out) == zzM, "stream length")
-	for i := range data {
-		verifAssert(out[i] == data[i], "stream content")
-	}
+	verifAssert(eof, "no EOF after the data")
+	zzSameBytes04(out, data, "stream")
 	verifReach("stream")
+}
+
+// a leader followed by a byte that is not a code of the table is rejected, never guessed (all 256 x table cases)
+func zzH_C04_unknownCode() {
+	var pairs [][2]byte
+	if verifBound("TABLE") == 2 {
+		pairs, _ = zzSymPairs()
+	} else {
+		pairs = zzBuiltinPairs(verifBound("TABLE"))
+	}
+	t := zzMkTable(pairs)
+	pre, post := verifNondetByte(), verifNondetByte()
+	verifAssume(pre != 0xee)
+	c := verifNondetByte()
+	defined := 0
+	for _, p := range pairs {
+		defined |= zzB(p[1] == c)
+	}
+	buf, _, err := unescapeData([]byte{pre, 0xee, c, post}, t, nil)
+	if defined != 0 {
+		verifAssert(err == nil, "defined pair rejected")
+		verifReach("defined")
+	} else {
+		verifAssert(err != nil, "undefined escape pair accepted")
+		verifAssert(buf == nil, "data returned with an error")
+		verifReach("rejected")
+	}
+}
+
+type zzSink struct{ data []byte }
+
+func (s *zzSink) Write(p []byte) (int, error) {
+	s.data = append(s.data, p...)
+	return len(p), nil
+}
+
+// everything the sender writes for one binary DATA frame: header + escaped payload; then the receiver's view of it
+func zzH_C04_wire() {
+	k := verifBound("TABLE")
+	prot := zzProtectedBasic
+	if k == 1 {
+		prot = zzProtectedAll
+	}
+	sink := &zzSink{}
+	t := newTransfer(sink, nil, false, nil)
+	t.transferConfig.Binary = true
+	t.transferConfig.EscapeTable = zzBuiltinTable(k)
+	data := zzSymData(verifBound("N"))
+	verifAssert(t.sendData(data) == nil, "sendData error")
+	zzNoneOf(sink.data, prot, "protected byte on the wire")
+	// receiver side, the frame arriving in one or two reads
+	r := newTransfer(&zzSink{}, nil, false, nil)
+	r.transferConfig.Binary = true
+	r.transferConfig.Timeout = 0
+	r.transferConfig.EscapeTable = zzBuiltinTable(k)
+	cut := verifNondetRange(1, len(sink.data))
+	r.buffer.addBuffer(sink.data[:cut])
+	if cut < len(sink.data) {
+		r.buffer.addBuffer(sink.data[cut:])
+	}
+	verifExpectBlock(1)
+	got, err := r.recvData()
+	verifExpectBlock(0)
+	verifAssert(err == nil, "recvData error")
+	zzSameBytes04(got, data, "wire")
+	verifReach("wire")
+}
+
+type zzCloseSink struct{ zzSink }
+
+func (s *zzCloseSink) Close() error { return nil }
+
+// the streaming writer in front of the framer: what it hands down never contains a protected byte and decodes back
+func zzH_C04_writer() {
+	k := verifBound("TABLE")
+	prot := zzProtectedBasic
+	if k == 1 {
+		prot = zzProtectedAll
+	}
+	t := zzBuiltinTable(k)
+	sink := &zzCloseSink{}
+	w := newEscapeWriter(t, sink)
+	data := zzSymData(verifBound("N"))
+	cut := verifNondetRange(0, len(data))
+	n1, err1 := w.Write(data[:cut])
+	n2, err2 := w.Write(data[cut:])
+	verifAssert(err1 == nil, "write error")
+	verifAssert(err2 == nil, "write error")
+	verifAssert(n1 == cut, "short count")
+	verifAssert(n2 == len(data)-cut, "short count")
+	zzNoneOf(sink.data, prot, "protected byte on the wire")
+	out, rem, err := unescapeData(sink.data, t, nil)
+	verifAssert(err == nil, "unescape error")
+	verifAssert(len(rem) == 0, "bytes remaining after unescape")
+	zzSameBytes04(out, data, "writer")
+	verifReach("writer")
 }
